@@ -214,4 +214,18 @@ func GetReportItem aspect rows returns (item)
     invariant @acc-off !config.Totals ==> acc == nil
     invariant @acc-on config.Totals ==> WfAcc(acc) && AccView(acc)
   }
+
+// ---------------------------------------------------------------------------------------------
+// formatValue (template function, C15): colour is chosen by the SIGN of the amount itself - positive red,
+// negative green, zero uncoloured - and the digits are always those of "%10.2f"; without colour the plain format.
+// ---------------------------------------------------------------------------------------------
+func getFormatValue$1 returns (r)
+  props C15 C08
+  ensures @positive-red [C15] num > 0.0 ==> r == Sprintf1F("\x1B[31m%10.2f\x1B[0m", num)
+  ensures @negative-green [C15] num < 0.0 ==> r == Sprintf1F("\x1B[32m%10.2f\x1B[0m", num)
+  ensures @zero-plain [C15] num == 0.0 ==> r == Sprintf1F("%10.2f", num)
+
+func getFormatValue$2 returns (r)
+  props C15 C08
+  ensures @plain [C15] r == Sprintf1F("%10.2f", num)
 @*/
